@@ -204,9 +204,15 @@ class Store:
             for s in (name, str(x.ident)):
                 if any(c in s for c in "|;,\t\n"):
                     self.problems.append(f"name {s!r} not encodable")
+            try:
+                fname = str(x.filename)      # what `warn_prefix` prints for text that belongs to the entity
+            except Exception:  # noqa  (external entities have no source file)
+                fname = ""
+            if any(c in fname for c in "|\t\n"):
+                self.problems.append(f"file name {fname!r} not encodable")
             out.append("|".join(["E", name, str(self.ids[id(p)]) if isinstance(p, sf.FortranBase) else "",
                                  "1" if ext else "0", (x.external_url or "") if ext else "",
-                                 ";".join(chain), ";".join(attrs)]))
+                                 ";".join(chain), ";".join(attrs), fname]))
         for a in self.proj_lists:
             out.append("|".join(["L", a, self.items(list(getattr(self.project, a)))]))
         return out
@@ -276,6 +282,33 @@ def html_segments(html):
 
 def squash(s):
     return re.sub(r"\s+", "", s)
+
+
+def printed_warnings(printed):
+    """the messages FORD printed through `ford.console.warn`, in order, without white space (rich wraps
+    lines at the console width): everything between one `Warning:` and the next"""
+    return [squash(x) for x in printed.split("Warning:")[1:]]
+
+
+def split_model_warnings(ans):
+    """model answer `...|#W|msg|msg` -> (answer, [squashed messages])"""
+    body, _, w = ans.rpartition("|#W")
+    return body, [squash(x) for x in w.split("|")[1:]]
+
+
+def compare_warnings(rep, stats, model_w, printed, case, what):
+    """exact correspondence of the warnings: the model's `convertLinkW` / `convertTextW` vs what FORD printed"""
+    impl_w = printed_warnings(printed)
+    kind = "none" if not impl_w else "+".join("child-not-found" if "linkingtopagefor" in x else "not-found" if x.endswith("notfound") else "other" for x in impl_w[:3]) + ("+..." if len(impl_w) > 3 else "")
+    stats["warnings"][kind] = stats["warnings"].get(kind, 0) + 1
+    if impl_w != model_w:
+        stats["disagree"] += 1
+        rep.tie_broken(f"correspondence conv (warnings): model {model_w!r} vs printed {impl_w!r} for {what}",
+                       dict(case, model_warnings=model_w, printed=printed))
+        return False
+    if impl_w:
+        stats["distinct"].add(common.digest(["warn", case.get("context"), kind]))
+    return True
 
 
 def warned_about(log, name):
@@ -751,6 +784,7 @@ def conv_stream(ford, drv, rng, n_projects, rep, tables, stats, replay_case=None
                 html, exc, printed = impl_convert_raw(md, text, real[c["id"]] if c is not None else None, path)
                 n_eval += 1
                 im = ("X", exc) if exc is not None else html_segments(html)
+                ans, model_w = split_model_warnings(ans)
                 a = ans.split("|")
                 if a[0] == "X":
                     model = ("X", a[1])
@@ -773,6 +807,7 @@ def conv_stream(ford, drv, rng, n_projects, rep, tables, stats, replay_case=None
                 else:
                     stats["distinct"].add(common.digest([ckind, shape, [p[2] for p in parts if p[0] == "ref"],
                                                          [x[0] for x in model] if isinstance(model, list) else model]))
+                compare_warnings(rep, stats, model_w, printed, case, f"the text {text!r} in context {ckind}")
                 culprit = None
                 if exc is not None:
                     # an exception aborts the whole text: the first reference that raises on its own explains it
@@ -798,6 +833,7 @@ def conv_stream(ford, drv, rng, n_projects, rep, tables, stats, replay_case=None
                                   path, reset=(what != "summary"), log=log)
                 n_eval += 1
                 stats["name_shape"][name_shape(r[0])] = stats["name_shape"].get(name_shape(r[0]), 0) + 1
+                ans, model_w = split_model_warnings(ans)
                 a = ans.split("|")
                 model = tuple(a[:3]) if a[0] == "L" else tuple(a[:2])
                 ckind = (c["kind"] + ("(local type)" if in_local_type(c) else "")) if c is not None else what
@@ -819,6 +855,7 @@ def conv_stream(ford, drv, rng, n_projects, rep, tables, stats, replay_case=None
                     rep.tie_broken(f"correspondence conv: model {model} vs implementation {im} for {text} in context {ckind}", case)
                 else:
                     stats["distinct"].add(common.digest([ckind, form, tclass, im[0], r[1], r[3]]))
+                compare_warnings(rep, stats, model_w, log[0], case, f"{text} in context {ckind}")
                 verdict, why = check_oracle(P, out, c, loc, r, im, log[0])
                 stats["oracle"][verdict] = stats["oracle"].get(verdict, 0) + 1
                 if verdict == "fail":
@@ -1144,7 +1181,7 @@ def run(tier: str, seed: int, replay: str | None = None) -> int:
     n_e2e = 6 if tier == "quick" else 40
     stats = {"project_url": {}, "ctx": {}, "target": {}, "form": {}, "outcome": {}, "kinds": {}, "oracle": {}, "fail_class": {},
              "code": {}, "e2e_pages": {}, "e2e_project_url": {}, "samples": [], "distinct": set(), "disagree": 0,
-             "syntax": {}, "name_shape": {}, "syntax_fail": {}}
+             "syntax": {}, "name_shape": {}, "syntax_fail": {}, "warnings": {}}
     n_path, bad_path = path_stream(drv, rng, 2000 if tier == "quick" else 20000, rep)
     n_conv = conv_stream(ford, drv, rng, n_proj, rep, tables, stats)
     n_syn = syntax_stream(ford, drv, random.Random(seed * 7919 + 3), 6000 if tier == "quick" else 60000, rep, stats)
@@ -1169,6 +1206,7 @@ def run(tier: str, seed: int, replay: str | None = None) -> int:
         oracle_verdicts=stats["oracle"],
         oracle_failures_by_class=stats["fail_class"],
         code_span_cases=stats["code"],
+        warnings_compared=dict(sorted(stats["warnings"].items())),
         e2e_links_checked=n_e,
         e2e_pages=stats["e2e_pages"],
         e2e_project_url_histogram=stats["e2e_project_url"],
